@@ -537,6 +537,39 @@ func checkNoSharedState(c *Check, rule string) {
 		if fs.Decl.Recv != nil && len(fs.Decl.Recv.List) > 0 && len(fs.Decl.Recv.List[0].Names) > 0 {
 			recv = info.Defs[fs.Decl.Recv.List[0].Names[0]]
 		}
+		// locals that hold the receiver pointer itself (x := r): a store through them is a store
+		// into the receiver (a copy, x := *r, is the function's own)
+		recvAlias := map[types.Object]bool{}
+		if recv != nil {
+			if _, isPtr := recv.Type().Underlying().(*types.Pointer); isPtr {
+				for changed := true; changed; {
+					changed = false
+					ast.Inspect(fs.Decl.Body, func(n ast.Node) bool {
+						as, ok := n.(*ast.AssignStmt)
+						if !ok || len(as.Lhs) != len(as.Rhs) {
+							return true
+						}
+						for i, r := range as.Rhs {
+							rid := identOf(ast.Unparen(r))
+							lid := identOf(ast.Unparen(as.Lhs[i]))
+							if rid == nil || lid == nil {
+								continue
+							}
+							ro := info.Uses[rid]
+							lo := info.Defs[lid]
+							if lo == nil {
+								lo = info.Uses[lid]
+							}
+							if ro != nil && lo != nil && (ro == recv || recvAlias[ro]) && !recvAlias[lo] && lo != recv {
+								recvAlias[lo] = true
+								changed = true
+							}
+						}
+						return true
+					})
+				}
+			}
+		}
 		check := func(lhs ast.Expr, pos token.Pos) {
 			root := lhs
 			depth := 0
@@ -576,6 +609,9 @@ func checkNoSharedState(c *Check, rule string) {
 				}
 				if recv != nil && obj == recv && depth > 0 {
 					bad = append(bad, c.P.pos(pos)+": receiver field written in "+c.P.abbrev(fs.Obj.FullName()))
+				}
+				if recvAlias[obj] && depth > 0 {
+					bad = append(bad, c.P.pos(pos)+": receiver field written through "+v.Name()+", which holds the receiver pointer, in "+c.P.abbrev(fs.Obj.FullName()))
 				}
 			}
 		}
